@@ -482,6 +482,16 @@ func Serve(types map[string]func() any, in io.Reader, outw io.Writer) {
 			d.enc(out, id, toks[2:])
 		case "DEC":
 			d.dec(out, id, toks[2:])
+		case "UNREG", "REG":
+			// the application changes the checksum registry between messages
+			if len(toks) > 2 {
+				if toks[0] == "REG" {
+					codec.Restore(toks[2])
+				} else {
+					codec.Unregister(toks[2])
+				}
+			}
+			fmt.Fprintf(out, "OK %s\n", id)
 		default:
 			fmt.Fprintf(out, "ERR %s unsupported command %s\n", id, toks[0])
 		}
